@@ -179,6 +179,19 @@ class WriterHarness(thrx.Harness):
       instrumentation.stats_lock = thrx.SchedLock(s)
     self.reactor = ReactorDouble(p.get('passes'))
     carbon.writer.reactor = self.reactor
+    self.rcalls = []
+    self.receiver = None
+    if p.get('receiver'):
+      # a cache daemon under flow control with one client connected: the daemon's own wiring (setupWriterProcessor) pauses
+      # and resumes it; calls handed to the reactor thread (callFromThread / blockingCallFromThread) are served by the
+      # harness's reactor thread between its steps - and no longer once the orderly stop has begun to join the thread pool
+      env.wire_writer_processor(settings)
+      from carbon.protocols import MetricLineReceiver
+      from twisted.internet.testing import StringTransport
+      self.receiver = MetricLineReceiver()
+      self.rx_transport = StringTransport()
+      self.receiver.makeConnection(self.rx_transport)
+      env.REACTOR_MODEL[0] = self
     self.service = None
     if p.get('service_stop'):
       # the daemon's own service object: what it registers at start-up is what the orderly stop will run
@@ -248,6 +261,10 @@ class WriterHarness(thrx.Harness):
     (carbon.util.time, carbon.util.sleep, carbon.cache.time, carbon.writer.time,
      carbon.writer.reactor, instrumentation.increment, state.database) = self.saved
     carbon.cache.choice = self.saved_choice
+    env.REACTOR_MODEL[0] = None
+    from twisted.python import threadable
+    if getattr(self, 'saved_io_thread', None) is not None:
+      threadable.ioThread = self.saved_io_thread
     if getattr(self, 'saved_stats_lock', None) is not None:
       instrumentation.stats_lock = self.saved_stats_lock
     try:
@@ -265,9 +282,42 @@ class WriterHarness(thrx.Harness):
       self.writer_exc = e
     self.elog.append(('writer-exit',))
 
+  # ---- the reactor thread as the place where handed-over calls run ------------------------------------------------
+  def blocking_call(self, f, a, k):
+    s = self.sched
+    if s.me() is self.tr:
+      return f(*a, **k)
+    box = {'done': False}
+    self.rcalls.append((f, a, k, box))
+    s.block(lambda: box['done'], ('blocking-call-from-thread',))
+    if 'exc' in box:
+      raise box['exc']
+    return box.get('result')
+
+  def call_from_thread(self, f, a, k):
+    if self.sched.me() is self.tr:
+      return f(*a, **k)
+    self.rcalls.append((f, a, k, {'done': False}))
+
+  def serve(self):
+    while self.rcalls:
+      f, a, k, box = self.rcalls.pop(0)
+      try:
+        box['result'] = f(*a, **k)
+      except Exception as e:   # noqa
+        box['exc'] = e
+      box['done'] = True
+
   def reactor_body(self):
     s = self.sched
+    if self.receiver is not None:
+      from twisted.python import threadable
+      self.saved_io_thread = threadable.ioThread
+      threadable.registerAsIOThread()
     for op in self.p['reactor']:
+      if self.receiver is not None:
+        s.point(('op', 'reactor-loop'))
+        self.serve()
       if op[0] == 'store':
         _, m, ts, v = op
         s.point(('op', 'store', m, ts))
@@ -331,8 +381,9 @@ class WriterHarness(thrx.Harness):
         else:
           self.writer.shutdownModifyUpdateSpeed()
         s.point(('op', 'crash'))
+        self.serve()
         self.reactor.running = False
-        s.join(self.tw)
+        s.join(self.tw)            # twisted joins the thread pool here: the reactor thread serves no calls while it waits
 
   # ---- verdict --------------------------------------------------------------------------------------
   def outcome(self, s):
